@@ -67,7 +67,7 @@ na = {
  "C06": "the tip rule is decided by float64 work sums (MorePOW) over block-tree histories with blocks re-read from the disk store: floats and histories are outside this engine; only the single connect/disconnect step of the UTXO map (disconnecting restores what was spent and removes what was created) is decided, as part of C17's H_C17_Notifications (DESIGN.md 6/C06)",
  "C07": "quantifies over OS file-system states between syscalls (crash points); nothing there is code the encoder can execute (DESIGN.md 6/C07)",
  "C11": "quantifies over thread interleavings; the engine executes one sequential schedule (DESIGN.md 6/C11)",
- "C12": "invariant over histories of five mutually referencing global pointer maps; needs an unbounded symbolic heap (DESIGN.md 6/C12)",
+ "C12": "invariant over histories of five mutually referencing global pointer maps and sorted lists whose ordering and replacement decisions are float64 fee-rate comparisons (SPW/SPB): a symbolic pre-state satisfying the pool's representation invariant cannot be built within this engine (pointer-rich heap, no symbolic floats), and enumerating concrete pools would not be solver-based checking (DESIGN.md 6/C12)",
  "C16": "real-file I/O with a background writer; snappy resolves to assembly on amd64 (no SSA) (DESIGN.md 6/C16)",
  "C19": "file operations and crash points of the embedded key-value store (DESIGN.md 6/C19)",
  "C20": "the allocator hands out uintptr addresses inside mmap'ed pages and casts them to typed pointers; deciding it needs a raw-memory model (byte-addressed pages aliasing typed objects) that this go/ssa encoder does not have, and the routing arithmetic alone is not the property (DESIGN.md 0.3, 6/C20)",
